@@ -256,10 +256,19 @@ class Unit:
         self.ops = []  # (kind, args, payload)
 
 
+# Idiom rewrites applied to every unit after its own edits, each only where the idiom occurs.
+DEFAULT_OPS = [
+    ('edit', {'rule': 'E16', 'find': '|_|', 'count': 'all', 'optional': '1'}, '|_e|'),
+    ('edit', {'rule': 'E9', 'find': '$a.as_ptr() as usize - $b.as_ptr() as usize', 'count': 'all', 'optional': '1'}, 'verif_offset_in($a, $b)'),
+    ('chain', {'rule': 'E13', 'find': '.chars().count()', 'to': 'verif_chars_count', 'count': 'all', 'optional': '1'}, ''),
+    ('chain', {'rule': 'E13', 'find': '.lines().count()', 'to': 'verif_lines_count', 'count': 'all', 'optional': '1'}, ''),
+]
+
+
 def apply_ops(unit, fn_text, log):
     """Apply the unit's edit list to the function text; return new text."""
     s = fn_text
-    for kind, a, payload in unit.ops:
+    for kind, a, payload in list(unit.ops) + (DEFAULT_OPS if unit.args.get('defaults', '1') == '1' else []):
         payload_txt = payload.rstrip('\n')
         if kind == 'macro':
             s, n = replace_macros(s, a['name'], a.get('to', payload_txt.strip()))
@@ -365,7 +374,10 @@ def apply_ops(unit, fn_text, log):
                     if not sp or s[after:sp[0][0]].strip():
                         raise ExtractError('%s: chain suffix `%s` does not follow' % (unit.id, a['suffix']))
                     after = sp[0][1]
-                call = '%s(%s%s%s)' % (a['to'], a.get('recvprefix', '') + recv.strip(), (', ' + args) if args else '',
+                rtxt = recv.strip()
+                if rtxt.endswith(']') and not a.get('recvprefix'):
+                    rtxt = '&' + rtxt  # an index/slice expression is a place: method calls auto-borrow it
+                call = '%s(%s%s%s)' % (a['to'], a.get('recvprefix', '') + rtxt, (', ' + args) if args else '',
                                         (', ' + a['extra']) if 'extra' in a else '')
                 s = s[:recv_start] + call + s[after:]
             log.append({'unit': unit.id, 'rule': a.get('rule', 'E3'), 'what': 'RECV%s..%s -> %s(RECV, ..)' % (a['find'], a.get('suffix', ''), a['to'])})
